@@ -378,7 +378,7 @@ fn site_case(tape: &[u16], j1: MV, j2: MV) -> Case {
         }
         18 => {
             // parameters named like the built-in constants
-            defs.push(["f = inf => [inf, k]", "f = infinity => [infinity, k]", "f = (a, inf?) => [a, inf, k]", "f = constants => [constants, k]"][t.pick(4)].into());
+            defs.push(["f = inf => [inf, k]", "f = infinity => [infinity, k]", "f = (a, inf?) => [a, inf, k]", "f = constants => [constants, k]", "f = sum => [sum, k]", "f = len => [len, k]", "f = map => [map, k]"][t.pick(7)].into());
             expect = Some(if defs.last().unwrap().contains("(a, inf?)") { "[3, null, k]".into() } else { "[3, k]".into() });
         }
         19 => {
